@@ -233,6 +233,23 @@ def r_keys(c):
                     if it.func.id == "enumerate":
                         break
                     it = it.args[0]
+                if isinstance(it, ast.Call) and isinstance(it.func, ast.Name) \
+                        and it.func.id == "zip" and len(it.args) >= 2 and any(
+                            ast.unparse(a).startswith(("expr", "rec_")) for a in it.args):
+                    # keys paired with values BY POSITION: only right if both
+                    # sequences were produced in the same order, which a mapping's
+                    # creation order and a sorted traversal are not
+                    srcs = [ast.unparse(a) for a in it.args]
+                    same = len({s_.split(".")[0] + "." + s_.split(".")[1].split("(")[0]
+                                for s_ in srcs if "." in s_}) == 1 and all("." in s_ for s_ in srcs)
+                    n += 1
+                    c.check(same, "R05-KEYS", f"{short(mapper)}.{mn}",
+                            f"zip:{m.frag(it, 40)}", m.loc(ci.module, dc),
+                            f"a mapping is rebuilt by zipping `{srcs[0]}` with `{srcs[1]}`: "
+                            "keys and values are paired by position although the two "
+                            "sequences are ordered differently (creation order vs. sorted "
+                            "traversal), so operands end up under each other's names")
+                    continue
                 if not (isinstance(it, ast.Call) and isinstance(it.func, ast.Attribute)
                         and it.func.attr == "items"
                         and isinstance(g.target, ast.Tuple)
